@@ -275,6 +275,16 @@ def setup(concepts, spec):
         attach.attach(lm.Infimum, 'minimal', MinimalMonitor(cap, bound, True))
     else:
         COL.count('Infimum.minimal_override_absent')
+    # overrides in the member subclasses (Infimum, Atom, Supremum, ...) are separate functions: a refactoring that
+    # adds one must not take those receivers out of the monitors' sight
+    for name, cls in sorted(vars(lm).items()):
+        if isinstance(cls, type) and issubclass(cls, lm.Concept) and cls is not lm.Concept:
+            if 'attributes' in vars(cls):
+                attach.attach(cls, 'attributes', AttributesMonitor(cap, bound))
+                COL.count('subclass_overrides_monitored')
+            if 'minimal' in vars(cls) and cls is not lm.Infimum:
+                attach.attach(cls, 'minimal', MinimalMonitor(cap, bound, False))
+                COL.count('subclass_overrides_monitored')
     global POOL
     POOL = common.Pool(5)
 
